@@ -68,6 +68,9 @@ def mapIndex (m : SMap) (k : String) : String := (mapLookup m k).1
 /-- `for _, x := range xs { … return … }`: the first iteration that returns decides. -/
 def rangeFirst {α β : Type} (xs : List α) (f : α → Option β) : Option β := xs.findSome? f
 
+/-- `for _, x := range xs { … }` whose body only updates variables that live outside it: a left fold. -/
+def rangeFold {α β : Type} (xs : List α) (init : β) (f : β → α → β) : β := xs.foldl f init
+
 end Go
 end Gk
 
